@@ -96,7 +96,7 @@ impl Labels {
     }
 }
 
-pub const CP_TYPES: [&str; 9] = ["D", "A", "B", "path::to::C", "G<u8>", "H::<i16>", "other::D", "v2::A", "G<i8>"];
+pub const CP_TYPES: [&str; 11] = ["D", "A", "B", "path::to::C", "G<u8>", "H::<i16>", "other::D", "v2::A", "G<i8>", "m::Gen<u8>", "m::n::Lt<'a, i32>"];
 pub const ERR_TYPES: [&str; 3] = ["E", "my::Err", "Er<u8>"];
 const S_FIELDS: [&str; 6] = ["a", "b", "c", "d", "e", "f"];
 const D_MEMBERS: [&str; 6] = ["x", "y", "z", "w", "p", "q"];
@@ -214,7 +214,7 @@ pub fn gen_counterparts(t: &mut Tape, o: &GenOpts, is_enum: bool, tuple_cp_ok: b
             tys.push("(i32, i64)".into());
         } else {
             // mostly the first few names, sometimes the exotic forms
-            let idx = if t.chance(1, 3) { 3 + t.below(6) } else { t.below(3) };
+            let idx = if t.chance(1, 3) { 3 + t.below(8) } else { t.below(3) };
             let mut c = pool[idx % pool.len()].to_string();
             let mut bump = 0;
             while tys.contains(&c) {
@@ -568,7 +568,17 @@ fn gen_struct(t: &mut Tape, o: &GenOpts, lab: &mut Labels) -> Item {
     }
     if !cp_entries.is_empty() {
         t.shuffle(&mut cp_entries);
-        type_instrs.push(Instr::ChildParents { ded: None, entries: cp_entries.clone() });
+        // one-entry-per-line style: a trailing comma after the last entry (the type text carries it; hint-less entries only)
+        let mut rendered_entries = cp_entries.clone();
+        if t.chance(1, 4) {
+            if let Some(last) = rendered_entries.last_mut() {
+                if last.2.is_none() {
+                    last.1 = format!("{},", last.1);
+                    lab.add("trailing-comma");
+                }
+            }
+        }
+        type_instrs.push(Instr::ChildParents { ded: None, entries: rendered_entries });
         if t.chance(1, 4) {
             if let Some(d) = pick_ded(t, &cps, lab) {
                 lab.add("child_parents:dedicated");
